@@ -735,3 +735,42 @@ func (c *Catalogue) Lookup(n int) int {
 	}
 	return n
 }
+
+// TableAt violates R2.26: the end of the table is the 32-bit sum of two numbers read from the file.
+func TableAt(program []byte, offset, length uint32) []byte {
+	end := offset + length
+	if int(end) <= len(program) {
+		return program[offset:end]
+	}
+	return nil
+}
+
+// Pages / CollectPages violate R10.18: a selected page without text is skipped before it is added.
+type Pages struct{ list []string }
+
+func (p *Pages) Add(s string) { p.list = append(p.list, s) }
+
+func CollectPages(texts []string) *Pages {
+	out := &Pages{}
+	for _, t := range texts {
+		if t == "" {
+			continue
+		}
+		out.Add(t)
+	}
+	return out
+}
+
+// RepeatedGroups violates R11.12: a group is dropped because its text is short.
+func RepeatedGroups(groups map[string]int) []string {
+	var out []string
+	for text, n := range groups {
+		if len(text) <= 2 {
+			continue
+		}
+		if n >= 2 {
+			out = append(out, text)
+		}
+	}
+	return out
+}
